@@ -138,7 +138,8 @@ def reader_run(pid, tier, mcs, mult, known_match=None, rbufs=RBUFS, chunks=CHUNK
     violations = []
     known_hits = []
     unrepro = []
-    for rj in res["rejections"]:
+    # (at most eight rejections are reproduced: on a tree where everything fails the verdict does not need more)
+    for rj in res["rejections"][:8]:
         prog = byid.get(rj["tid"])
         if prog is None:
             raise core.Infra("rejected trace without program: %r" % rj["tid"])
